@@ -222,6 +222,7 @@ def run(ctx: Ctx) -> None:
             ok = all(bool(eval_expr(t, {"self.buffer": b""})) == p for t, p in guards(es[0])) and not all(bool(eval_expr(t, {"self.buffer": b"x"})) == p for t, p in guards(es[0]))
         except Unknown:
             ok = False
+    ok = ok and bool(dels) and all(d.lineno < es[0].lineno for d in dels)
     ctx.check("C08.R6", wpop, "_is_empty.set() iff the buffer is empty after removal", ok, "drain() is released exactly when everything was popped", es[0] if es else pop)
     ec = find_calls(push, "self._is_empty.clear")
     ok = len(ec) == 1 and not (guard_atoms(ec[0]) - {("self._complete", False)})
